@@ -195,7 +195,7 @@ def render_flo(prog):
         L.append("  init .v%d with value 0" % v)
     for fm in prog["framers"]:
         h = "  framer %s be %s" % (fm["name"], fm["sched"])
-        if fm["sched"] in ("active", "inactive") and fm.get("order", "mid") != "mid":
+        if fm.get("order", "mid") != "mid":       # slaves / auxes too: an order option never schedules them
             h += " in %s" % fm["order"]
         if fm.get("period", 0.0):
             h += " at %s" % fl(fm["period"])
@@ -431,6 +431,15 @@ class RunnerProxy(object):
                                None if act is None else self.rec.fid[(t.name, act.name)]])
 
     def send(self, ctl):
+        self.rec.oracle.append(["sendbegin", self.rec.tick, self.tasker.name, ctl, self.tasker.status,
+                                len(self.rec.trace), self.rec.senddepth])
+        self.rec.senddepth += 1
+        try:
+            return self._send(ctl)
+        finally:
+            self.rec.senddepth -= 1
+
+    def _send(self, ctl):
         snap = getattr(self.rec, "snapshot", None)
         if snap is not None and ctl in (1, 4) and not self.rec.quiet:     # START / READY: oracle record
             entry = ["ctl", self.rec.tick, self.tasker.name, ctl, self.tasker.status, snap(),
@@ -466,6 +475,7 @@ class Recorder(object):
         self.fid = dict(ix.fid)
         self.oracle = []
         self.quiet = 0
+        self.senddepth = 0
 
     def record(self, message):
         tag = int(message.strip()[1:])
@@ -602,6 +612,18 @@ def install_oracle(rec, house, store=None, nvars=0):
                                    [[f.name for f in self.actives], float(self.elapsed).hex(), int(self.recurred)]])
         return segue
 
+    def mk_marker(orig):
+        def action(self, share, marker, **kwa):
+            rec.oracle.append(["mark", rec.tick, depth[0], len(rec.trace)])
+            return orig(self, share=share, marker=marker, **kwa)
+        return action
+
+    def mk_frame_recur(orig):
+        def recur(self):
+            rec.oracle.append(["recur", rec.tick, self.framer.name, self.name, [f.name for f in self.framer.actives]])
+            return orig(self)
+        return recur
+
     def mk_frame_enter(orig):
         def enter(self):
             depth[0] += 1
@@ -642,6 +664,12 @@ def install_oracle(rec, house, store=None, nvars=0):
     patch(framing.Framer, "exitAll", mk_exitAll)
     patch(framing.Frame, "enter", mk_frame_enter)
     patch(framing.Framer, "segue", mk_segue)
+    patch(framing.Frame, "recur", mk_frame_recur)
+    patch(acting.MarkerUpdate, "action", mk_marker)
+    patch(acting.MarkerChange, "action", mk_marker)
+    for t in framers:
+        for f in t.frameNames.values():
+            rec.oracle.append(["beacts", 0, t.name, f.name, len(f.beacts)])
     patch(completing.CompleteDone, "action", mk_done)
     patch(needing.NeedDone, "action", mk_needdone)
     patch(needing.NeedDoneAux, "action", mk_needdoneaux)
@@ -825,9 +853,11 @@ class Gen(object):
                 fm = {"name": "m%d" % i, "sched": sched, "order": r.choice(["front", "mid", "mid", "back"]),
                       "period": per}
             elif kind == "aux":
-                fm = {"name": "a%d" % i, "sched": "aux", "order": "mid", "period": 0.0}
+                fm = {"name": "a%d" % i, "sched": "aux", "order": r.choice(["mid", "mid", "mid", "front", "back"]),
+                      "period": 0.0}
             else:
-                fm = {"name": "s%d" % i, "sched": "slave", "order": "mid", "period": 0.0}
+                fm = {"name": "s%d" % i, "sched": "slave", "order": r.choice(["mid", "mid", "front", "back"]),
+                      "period": 0.0}
             nfr = r.randint(1, self.sizes[1])
             frs = []
             for j in range(nfr):
@@ -1299,4 +1329,40 @@ def scenarios(tick=0.125):
         out.append(("under-names-later-child-%s" % order[0], _tagged({"tick": tick, "nvars": 1, "framers": [
             {"name": "m0", "sched": "active", "order": "mid", "period": 0.0, "first": "top",
              "frames": [frs[n] for n in order]}]})))
+    # S25: a let guard written as a conjunction: EVERY conjunct guards the entry (first false / last true)
+    out.append(("let-conjunction-every-conjunct-guards", _tagged({"tick": tick, "nvars": 2, "framers": [
+        {"name": "m0", "sched": "active", "order": "front", "period": 0.0, "first": "f0", "frames": [
+            _fr("f0", preacts=[["go", [["recurred", ">=", 1]], "f1"], ["go", [["recurred", ">=", 4]], "f2"]],
+                reacts=[["inc", 1, 1]]),
+            _fr("f1", beacts=[["var", 0, ">=", 1], ["var", 1, ">=", 0]], enacts=[["rec", 932]]),
+            _fr("f2", enacts=[["rec", 933], ["bid", "stop", ["all"], None]])]},
+        {"name": "m1", "sched": "inactive", "order": "back", "period": 0.0, "first": "g0", "frames": [
+            _fr("g0", beacts=[["var", 0, ">=", 1], ["var", 1, ">=", 0], ["var", 1, "<=", 9]])]},
+        {"name": "m2", "sched": "active", "order": "mid", "period": 0.0, "first": "h0", "frames": [
+            _fr("h0", enacts=[["rec", 934], ["bid", "start", ["m1"], None]])]}]})))
+    # S26: a taken transition runs its transit (marker re-arm) actions BEFORE the exit actions of the frames it
+    # leaves: an exit action that changes the marked share is seen as a change by a later need on the same mark
+    out.append(("transit-actions-before-exit-actions", _tagged({"tick": tick, "nvars": 1, "framers": [
+        {"name": "m0", "sched": "active", "order": "mid", "period": 0.0, "first": "f0", "frames": [
+            _fr("f0", enacts=[["put", 0, 1]], exacts=[["put", 0, 5]],
+                preacts=[["go", [["changed", 0, "me", None]], "f1"]]),
+            _fr("f1", preacts=[["go", [["changed", 0, "f0", None]], "f2"], ["go", [["recurred", ">=", 3]], "f3"]]),
+            _fr("f2", enacts=[["rec", 935], ["bid", "stop", ["all"], None]]),
+            _fr("f3", enacts=[["rec", 936], ["bid", "stop", ["all"], None]])]}]})))
+    # S27: `repeat N` / `timeout T` whose target refuses entry at the first due evaluation and lets it through
+    # later: the verb still fires (the goal is >=, not ==)
+    out.append(("repeat-fires-after-the-goal-was-passed", _tagged({"tick": tick, "nvars": 1, "framers": [
+        {"name": "m0", "sched": "active", "order": "front", "period": 0.0, "first": "f0", "frames": [
+            _fr("f0", preacts=[["go", [["recurred", ">=", 2]], "f1", "repeat"]], reacts=[["inc", 0, 1]]),
+            _fr("f1", beacts=[["var", 0, ">=", 5]], enacts=[["rec", 937]],
+                preacts=[["go", [["recurred", ">=", 0]], "f2", "repeat"]]),
+            _fr("f2", enacts=[["rec", 938], ["bid", "stop", ["all"], None]])]}]})))
+    # S28: a slave declared with an order option is still never run by the scheduler
+    out.append(("slave-with-order-option-not-scheduled", _tagged({"tick": tick, "nvars": 1, "framers": [
+        {"name": "m0", "sched": "active", "order": "mid", "period": 0.0, "first": "f0", "frames": [
+            _fr("f0", enacts=[["fiat", "start", "s1"]], reacts=[["fiat", "run", "s1"]],
+                preacts=[["go", [["recurred", ">=", 3]], "f1"]]),
+            _fr("f1", enacts=[["rec", 939], ["bid", "stop", ["all"], None]])]},
+        {"name": "s1", "sched": "slave", "order": "front", "period": 0.0, "first": "x", "frames": [
+            _fr("x", reacts=[["inc", 0, 1]])]}]})))
     return out
